@@ -105,6 +105,15 @@ func (d *partialDriver) checkInvariant(res *racResult, h racHistory, tag string,
 		}
 		return nil
 	})
+	// (i') every cached entry names a live leaf at its true position (the forest must not claim leaves that are gone)
+	d.m.CachedLeaves.ForEach(func(hv Hash, pos uint64) error {
+		res.eval("MapPollard.partial.rac.cached-are-live")
+		if want, live := lp[hv]; !live || want != pos {
+			res.fail("MapPollard.partial.rac.cached-are-live", d.in(h, "state", tag, "cached", fmt.Sprintf("%x", hv[:4])), fmt.Sprintf("cached at %d", pos), fmt.Sprintf("live=%v position=%d", live, want))
+			ok = false
+		}
+		return nil
+	})
 	// (ii) every remembered leaf is cached at its position and provable with the canonical proof
 	var rs []Hash
 	for x := range d.R {
